@@ -630,6 +630,14 @@ class GeoInterp:
                 if recv is not None and recv[0] in TAG:
                     c_ = self.gmod.classes.get(TAG[recv[0]])
                     target = self.index.method(c_, e.func.attr) if c_ is not None else None
+                    if target is None and recv[0] == 'T':
+                        # the agent is read as its pose: a helper method of Agent called on
+                        # it (`self.neighbor(Orientation.F)`)
+                        try:
+                            ac_ = self.index.cls('gym_gridverse/agent.py', 'Agent')
+                            target = self.index.method(ac_, e.func.attr)
+                        except Exception:       # noqa: BLE001
+                            target = None
                 elif recv is not None and recv[0] == 'E':
                     # a method of another enum of the package (`action.is_turn()`)
                     c_ = self.index.find_class(recv[1].split('.')[-1])
